@@ -91,7 +91,7 @@ func runMuxStruct(c *mon.Ctx, prop string) {
 		}
 		if i%16 == 6 || i%16 == 14 {
 			// remultiplexing: parsed PES and parsed first-packet adaptation fields handed to the Muxer as they are
-			if rops, n := remuxScenario(r, i%16 == 14); n > 0 {
+			if rops, n, _ := remuxScenario(r, i%16 == 14); n > 0 {
 				ops = rops
 				c.Add("parsed_units_remultiplexed", int64(n))
 			}
